@@ -93,7 +93,11 @@ def run_cases(chk: Check, fn_mod: str, fn_name: str, names, spec_for, jobs: int 
                 try:
                     results[n] = pc.recv()
                 except EOFError:
-                    results[n] = {"name": n, "harness": [f"{n}: worker died without a result (exit code {pr.exitcode})"]}
+                    pr.join(5)
+                    if pr.exitcode is not None and pr.exitcode < 0:
+                        results[n] = {"name": n, "outside": [f"{n}: worker process killed by signal {-pr.exitcode} (out of memory / stack overflow in native code) - not analysed"]}
+                    else:
+                        results[n] = {"name": n, "harness": [f"{n}: worker died without a result (exit code {pr.exitcode})"]}
                 pr.join(5)
                 del live[n]
             elif not pr.is_alive():
